@@ -189,6 +189,20 @@ Theorem merge_tdfree_set_partial :
 Proof. exact StubSetMerge.shrink_top_set_invariant. Qed.
 Print Assumptions merge_tdfree_set_partial.
 
+(* for TypedDict-free inputs the merge is always defined, so the two results exist and admit the same values *)
+Theorem merge_tdfree_defined :
+  forall k ts, Forall (fun t => has_td t = false) ts -> exists t, shrink_top k ts = Some t.
+Proof. exact StubSetMerge.shrink_top_tdfree_defined. Qed.
+Print Assumptions merge_tdfree_defined.
+
+Theorem merge_tdfree_perm_total_partial :
+  forall anyb sub k ts ts',
+    Forall (fun t => has_td t = false) ts -> Permutation ts ts' ->
+    exists t t', shrink_top k ts = Some t /\ shrink_top k ts' = Some t'
+                 /\ forall v, member anyb sub v t = member anyb sub v t'.
+Proof. exact StubSetMerge.shrink_top_perm_total. Qed.
+Print Assumptions merge_tdfree_perm_total_partial.
+
 Example ex_merge_tdfree_perm :
   let i := TCls cInt in let s := TCls cStr in
   let ts  := [TList i; TList (TUnion [i; s]); TList TAny; TList s] in
